@@ -6,6 +6,7 @@ import Iota.Gen.Bech32
 import Iota.Tie.Expect
 import Iota.Model.Bech32
 import Iota.Tie.Bech32Code
+import Iota.Tie.Base32Code
 
 namespace Iota.Tie.Bech32
 open Iota
@@ -40,7 +41,9 @@ theorem decodedLen_eq (n : Nat) : Gen.Bech32.DecodedLen n = (Bech32.decodedLen n
   rw [this, Int.tdiv_eq_ediv_of_nonneg (by omega)]
   omega
 
-/-- the hand-written model was written from exactly this code -/
+/-- the hand-written model was written from exactly this code (`internal/base32`: `Encode`, `Decode`, `EncodedLen`,
+`DecodedLen` are not pinned by text any more: they are translated as code and tied to the model for all inputs in
+`Iota/Tie/Base32Code.lean`) -/
 theorem src :
     Gen.Bech32.src_bech32_Encode = Expect.Bech32_src_bech32_Encode ∧
     Gen.Bech32.src_bech32_Decode = Expect.Bech32_src_bech32_Decode ∧
@@ -50,12 +53,8 @@ theorem src :
     Gen.Bech32.src_bech32_firstLower = Expect.Bech32_src_bech32_firstLower ∧
     Gen.Bech32.src_bech32_newEncoding = Expect.Bech32_src_bech32_newEncoding ∧
     Gen.Bech32.src_bech32_encoding_encode = Expect.Bech32_src_bech32_encoding_encode ∧
-    Gen.Bech32.src_bech32_encoding_decode = Expect.Bech32_src_bech32_encoding_decode ∧
-    Gen.Bech32.src_base32_Encode = Expect.Bech32_src_base32_Encode ∧
-    Gen.Bech32.src_base32_Decode = Expect.Bech32_src_base32_Decode ∧
-    Gen.Bech32.src_base32_EncodedLen = Expect.Bech32_src_base32_EncodedLen ∧
-    Gen.Bech32.src_base32_DecodedLen = Expect.Bech32_src_base32_DecodedLen :=
-  ⟨rfl, rfl, rfl, rfl, rfl, rfl, rfl, rfl, rfl, rfl, rfl, rfl, rfl⟩
+    Gen.Bech32.src_bech32_encoding_decode = Expect.Bech32_src_bech32_encoding_decode :=
+  ⟨rfl, rfl, rfl, rfl, rfl, rfl, rfl, rfl, rfl⟩
 
 /-- everything else the package declares (imports, constants, types, variables, build constraints and the functions not
 pinned one by one) is unchanged too: no declaration of the modelled packages can change without a tie theorem failing. -/
@@ -80,5 +79,41 @@ theorem code_createChecksum (hrp blocks : List UInt8) :
 open Iota.Tie.Bech32Code in
 theorem code_verifyChecksum (hrp data : List UInt8) :
     Gen.Bech32.bech32VerifyChecksum (bv hrp) (bv data) = Bech32.verifyChecksum hrp data := verifyChecksum_eq hrp data
+
+/-! ### internal/base32 translated AS CODE (switch / fallthrough / break, output buffer, `&CorruptInputError{…}`)
+= the model's `b32Encode` / `b32Decode`, for all inputs; `none` is a Go run-time panic. The destination and the source
+have the same element type: the translation assumes they do not overlap, which the extractor checks at both call sites
+(`dst := make(…)` in pkg/bech32/bech32.go). Proofs: `Iota/Tie/Base32Code.lean`. -/
+open Iota.Tie.Bech32Code (bv) in
+open Iota.Tie.Base32Code in
+open Iota.Bech32 in
+theorem code_base32_encode (dst : List (BitVec 8)) (src : List UInt8) (hlen : src.length < 2 ^ 63) :
+    Gen.Bech32.base32.Encode dst (bv src) =
+      if encodedLen src.length ≤ dst.length then
+        some (Gen.Bech32.base32.EncodedLen (BitVec.ofNat 64 src.length),
+          bv (b32Encode src) ++ dst.drop (encodedLen src.length))
+      else none := encode_spec dst src hlen
+open Iota.Tie.Bech32Code (bv) in
+open Iota.Tie.Base32Code in
+open Iota.Bech32 in
+theorem code_base32_decode (dst : List (BitVec 8)) (src : List UInt8) (hlen : src.length < 2 ^ 63) :
+    Gen.Bech32.base32.Decode dst (bv src) =
+      if (decBytes src).length ≤ dst.length then
+        some (BitVec.ofNat 64 (decBytes src).length, errOf (b32Decode src),
+          bv (decBytes src) ++ dst.drop (decBytes src).length)
+      else none := decode_spec dst src hlen
+open Iota.Tie.Bech32Code (bv) in
+open Iota.Tie.Base32Code in
+open Iota.Bech32 in
+/-- **no panic with the buffers `bech32.Encode` / `bech32.Decode` allocate** (EncodedLen + 6 resp. DecodedLen bytes) -/
+theorem code_base32_no_panic_at_call_sites (dst : List (BitVec 8)) (src : List UInt8) :
+    (src.length < 2 ^ 60 →
+      dst.length = (Gen.Bech32.base32.EncodedLen (BitVec.ofNat 64 src.length) + 6#64).toNat →
+      Gen.Bech32.base32.Encode dst (bv src) ≠ none) ∧
+    (src.length * 5 < 2 ^ 63 →
+      dst.length = (Gen.Bech32.base32.DecodedLen (BitVec.ofNat 64 src.length)).toNat →
+      Gen.Bech32.base32.Decode dst (bv src) ≠ none) :=
+  ⟨fun h1 h2 => (by rw [(encode_caller dst src h1 h2).1]; exact fun h => nomatch h),
+   fun h1 h2 => decode_caller dst src h1 h2⟩
 
 end Iota.Tie.Bech32
